@@ -85,7 +85,7 @@ prop(
      {"lane": "tb", "n_quick": 3000, "n_thorough": 100000}],
     "lane tb (validates the SPEC, does not call lol-html): Spec.TreeBuilder — a Lean transcription of WHATWG 13.2.6 tree construction (all 23 insertion modes, foreign content, scopes, active formatting list with adoption agency; no DOM) — against html5ever 0.39's tree builder driven token by token through a DOM-less TreeSink: tokenizer feedback, CDATA flag and the WHOLE stack of open elements after every token, on token soup over every name the standard mentions / 23 mode-biased streams / foreign content / formatting / tables; six documented deviations of html5ever from the standard are explicit switches; lane h5 (implementation only): tag soup in the HTML namespace without svg/math (all text-mode elements, select/template/frameset/table, truncated constructs, case variants) and documents from a recursive well-nested foreign-content grammar, real HtmlRewriter (strict, all-observer and single-kind capture sets, random chunkings) vs the html5ever 0.39 tokenizer driven by its own tree builder (RcDom); lane hash: names over the hash alphabet, table names with case variants, length-limit and sentinel neighbourhood, bad bytes; "
     + LEX_RULE,
-    ["the tree-construction stage IS formalised (Spec/TreeBuilder*.lean, validated against html5ever 0.39 by lane tb on 600 000 token sequences incl. the whole stack after every token; html5ever implements the 2025 'customizable select' text: Cfg.legacySelect = false is what is validated, the pre-2025 text with the two select modes only on select-free input) and the simulator is PROVED to agree with it on stated classes: HTML-namespace token sequences without a template start tag and without a frameset start tag after a select start tag (C03_tb_text_feedback_partial, C03_tb_guard_sound_partial), and the well-nested foreign island grammar with names outside the 125 the standard mentions (C03_tb_foreign_partial); the unrestricted statements are REFUTED by evaluated witnesses (C03_tb_*_statement_false) that are genuine findings F31-F34",
+    ["the tree-construction stage IS formalised (Spec/TreeBuilder*.lean, validated against html5ever 0.39 by lane tb on 600 000 token sequences incl. the whole stack after every token; html5ever implements the 2025 'customizable select' text: Cfg.legacySelect = false is what is validated, the pre-2025 text with the two select modes only on select-free input) and the simulator is PROVED to agree with it: for ALL HTML-namespace token sequences (templates allowed) up to the first token met in a state where one of two decidable predicates on (spec state, guard state) holds — ColGroupInTemplate (in column group with a non-colgroup current node: F31's context) or GuardSelectStale (guard in a select state while the parser is back in a pre-body mode: F32's context) — (C03_tb_text_feedback_exact, C03_tb_guard_sound_exact); neither predicate can become true without a template start tag (C03_tb_exclusions_need_template), so on template-free input the agreement is unconditional (C03_tb_text_feedback_partial); both exclusions are necessary (evaluated witnesses = findings F31, F32). Foreign content: agreement on the well-nested island grammar with foreign names PlainF, HTML names isOrd and 28 void-like stand-alone tags (C03_tb_foreign_partial); outside it the spec yields findings F2, F11, F12, F28, F33-F36 as evaluated disagreements",
      "hypotheses of the tree-builder theorems: scripting enabled, current-standard select parsing, hash test = name test on the 125 names the standard mentions (agree_named, decided on the generated tag table)",
      "Ref tables (lean/LolHtml/Ref/Tags.lean) are hand-reviewed against the standard",
      "C03_parser_sim_trace is for pure lexer-mode runs (mixed scanner/lexer runs split the simulator step across the two machines: C06) and excludes runs dying in the three debug assertions of handle_tree_builder_feedback; the strict theorems need the table side-condition EmitsChecked (`?` on emit_tag / finish_tag_name), decided on the generated table",
@@ -110,8 +110,11 @@ prop(
                 "strict simulator accepts, lol-html's tokenizer switch = the standard's switch = the switch of that tag "
                 "(C03_tb_text_feedback_partial/_gen), and a text-switching start tag accepted in strict mode is never ignored by "
                 "the standard's tree builder (C03_tb_guard_sound_partial); on the well-nested island grammar simulator and "
-                "standard agree tag by tag on namespaces (C03_tb_foreign_partial). PARTIAL: outside those classes the full "
-                "statements are false (F31-F34, F2, F11, F12, F28 all come out of the spec as evaluated disagreements)."),
+                "standard agree tag by tag on namespaces (C03_tb_foreign_partial). EXACT for the HTML namespace: the agreement "
+                "holds for all sequences up to the first state satisfying ColGroupInTemplate or GuardSelectStale, which need a "
+                "template start tag to arise (C03_tb_text_feedback_exact, C03_tb_exclusions_need_template) — findings F31/F32 are "
+                "the ONLY HTML-namespace failures. PARTIAL for foreign content: outside the proved class the statements are false "
+                "(F2, F11, F12, F28, F33-F36 all come out of the spec as evaluated disagreements)."),
     level_note=("Trusted: Lean kernel; translators; the reviewed Ref tables; the model of the simulator (tied by lanes lex/hash). "
                 "Spec.TreeBuilder is a hand transcription of WHATWG 13.2.6 (trusted as a reading of the standard, validated by lane tb). "
                 "Not covered: a bisimulation 'equal resolution => equal runs' and formal lemmas for the nine shape deviations of the reference table."),
@@ -341,7 +344,7 @@ prop(
 
 prop(
     "C15",
-    ["LolHtml.Thm.C15_Core", "LolHtml.Thm.C15_Full", "LolHtml.Thm.C15_Linear", "LolHtml.Thm.Full", "LolHtml.Thm.Full3"],
+    ["LolHtml.Thm.C15_Core", "LolHtml.Thm.C15_Full", "LolHtml.Thm.C15_Linear", "LolHtml.Thm.Full", "LolHtml.Thm.Full3", "LolHtml.Thm.Full4"],
     [{"lane": "lex", "n_quick": 4000, "n_thorough": 200000},
      {"lane": "fault", "n_quick": 3000, "n_thorough": 60000},
      {"lane": "full", "n_quick": 2000, "n_thorough": 40000},
@@ -349,7 +352,7 @@ prop(
     LEX_RULE + "; every lane of the harness runs in a build with overflow checks and debug assertions, each case under catch_unwind (a panic is an observation `PANIC …`, compared with the model which makes every panic site explicit); lane patho (implementation only): pathological shapes (deep nesting, one giant tag name / attribute list / attribute value / comment / doctype, '<' and '</' runs, foreign content, script escapes, select, CDATA, random markup bytes, hundreds of selectors, random selector strings) at sizes up to 4*10^6 bytes, in one write and in 4 KiB writes, with a deterministic work oracle (bytes handed to Parser::parse, counted by a hook, <= 2*len + 4 KiB) and a hard CPU bound",
     ["covers the parser / dispatcher / transform-stream core; panics in selectors/cssparser/encoding_rs/std and in the packages' own scopes (selector VM: C04_vm_never_panics; handlers: C05_no_panic; memory: C10_error_not_panic; nth: C04_nth_total) are those packages' theorems",
      "the two former open sites (U2: 'Tag should be a start tag at this point', RequestLexeme callback assertion) are closed by C15_no_panic_full at the cost of one more decidable table side-condition RelexSide (HeadOk, RelexOk, TextTypeOk, PhaseOk: the token-kind agreement between scanner and re-lexing lexer is a property of the table), decided on the regenerated table on every run",
-     "CtlClean quantifies over all controller states; the real controller model (Model/Full) satisfies it only on states reachable in runs (Full_not_ctlClean: the aux-info continuation without a pending request is rewrite_controller.rs's 'vm req without vm' branch) — no callback-closed state invariant can repair this (Full_ctlClean_unattainable: a call ORDER the dispatcher never produces reaches the stale-locator debug_assert in HandlerVec::inc_user_count; Full_no_state_invariant_suffices), so C15_no_panic_full does not instantiate at the real controller as stated. Proved instead (Thm/Full3, Full_no_panic_protocol): along every protocol-conforming event sequence from the initial state of ANY configuration the controller ends fault-free in the joint invariant (typing, scope Inv, selector-VM SemInv), stops with a content-handler error, or stops at one of three residual glue sites (attribute raw slice out of range, token range before the slice base, end-tag payload missing); every VM panic, dispatcher locator / match-id / refcount panic, stack desynchronisation and 'vm req without vm' is excluded. Not proved: that the core dispatcher's calls always form such a sequence (Full_protocol_statement) and hence Full_no_panic_statement",
+     "CtlClean quantifies over all controller states; the real controller model (Model/Full) satisfies it only on states reachable in runs (Full_not_ctlClean: the aux-info continuation without a pending request is rewrite_controller.rs's 'vm req without vm' branch) — no callback-closed state invariant can repair this (Full_ctlClean_unattainable: a call ORDER the dispatcher never produces reaches the stale-locator debug_assert in HandlerVec::inc_user_count; Full_no_state_invariant_suffices), so C15_no_panic_full does not instantiate at the real controller as stated. Proved instead (Thm/Full3, Full_no_panic_protocol): along every protocol-conforming event sequence from the initial state of ANY configuration the controller ends fault-free in the joint invariant (typing, scope Inv, selector-VM SemInv), stops with a content-handler error, or stops at one of three residual glue sites (attribute raw slice out of range, token range before the slice base, end-tag payload missing); every VM panic, dispatcher locator / match-id / refcount panic, stack desynchronisation and 'vm req without vm' is excluded. Round 3 (Thm/Full4): every lexer-mode dispatcher operation (handle_tag, handle_non_tag_content, handle_end) from an idle dispatcher state is protocol-conforming and ends idle again or fails with a content-handler error / one of three named glue sites / a dispatcher slice check (Full_handleTag_lexer, Full_handleNonTag_lexer, Full_handleEnd_lexer; the `token range before slice base` site is eliminated); with the CLEANED controller (panic-class callback errors mapped to handler errors) the whole model never panics (Full_clean_no_panic), and the real run equals the cleaned run call by call up to the first panic-class callback error (Full_writes_agree_or_panic): parser, dispatcher and stream add no panic site of their own. Still not proved: the lifting of the dispatcher invariant through Parser.parse until the first error, lexeme facts for the glue sites, scanner mode — Full_no_panic_lexer_statement / Full_no_panic_statement remain statements",
      "work bound: C15_linear_parse (one parse call makes <= 32(|slice|+1) state invocations) and C15_work_linear_when_drained (total work linear when each write leaves <= K retained bytes); without draining the bytes handed to the parser grow quadratically: C15_work_quadratic_witness = known finding F29",
      "known finding F29: a token spanning many writes is re-lexed from its start on every write (quadratic work), found by lane patho",
      "the controller itself never returns a panic/internal-class error (CtlClean)", MODEL_SCOPE],
